@@ -67,7 +67,7 @@ type orcSame struct {
 func orcObjSameContent(pre *orcSnap, i int, post *orcSnap, j int, drop ...[]string) string {
 	la, _ := orcScalar(pre.Objs[i].Attrs, "label")
 	lb, _ := orcScalar(post.Objs[j].Attrs, "label")
-	if strings.EqualFold(la, pre.Objs[i].IDVal) && strings.EqualFold(lb, post.Objs[j].IDVal) && strings.EqualFold(la, lb) {
+	if la == pre.Objs[i].IDVal && lb == post.Objs[j].IDVal && strings.EqualFold(la, lb) {
 		// default labels follow the spelling of the ID (first reference wins)
 		drop = append(drop, []string{"label"})
 	}
